@@ -337,6 +337,10 @@ class Contract:
     def loops(self):
         return {}
 
+    def body(self, fn):
+        """the statements that are verified (default: the whole body); a contract may verify a suffix/prefix and must say so"""
+        return fn.body
+
     def post(self, eng, st, status, value):
         """-> [(name, goal)] for an exit of kind status in {'return','raise'}"""
         return []
@@ -367,6 +371,10 @@ class Contract:
 
     def on_truth(self, eng, st, v):
         return NotImplemented
+
+    def on_branch(self, eng, st, test_node, cond):
+        """one-directional 'fold' of a raw branch test into opaque spec predicates; must emit its own soundness obligations"""
+        return None
 
     def on_store_subscript(self, eng, st, node, base, index, value):
         return NotImplemented
@@ -409,6 +417,8 @@ class Engine:
         self.src = source or Source.load(contract.source)
         self.fn = fn_node if fn_node is not None else self.src.func(contract.function)
         self.loop_id = loop_ordinals(self.fn)
+        rets = sorted((n for n in ast.walk(self.fn) if isinstance(n, ast.Return)), key=lambda n: (n.lineno, n.col_offset))
+        self.return_ord = {id(n): k for k, n in enumerate(rets)}
         self.loop_specs = contract.loops()
         self.obligations = []
         self.exits = []
@@ -432,7 +442,7 @@ class Engine:
     def run(self):
         st = State()
         self.c.params(self, st)
-        for (s, status) in self.block(self.fn.body, st):
+        for (s, status) in self.block(self.c.body(self.fn), st):
             if status == "fall":
                 status = ("return", None)
             if status in ("break", "continue"):
@@ -502,11 +512,15 @@ class Engine:
             if isinstance(t, bool):
                 outs.append((s, t))
                 continue
+            extra = self.c.on_branch(self, s, test, t)       # contract "fold" hints: (facts if taken, facts if not taken)
             a, b = s, s.clone()
             a.pc.append(t)
             a.trail.append(f"L{getattr(test, 'lineno', '?')}:T")
             b.pc.append(Not(t))
             b.trail.append(f"L{getattr(test, 'lineno', '?')}:F")
+            if extra:
+                a.pc.extend(extra[0])
+                b.pc.extend(extra[1])
             for (x, val) in ((a, True), (b, False)):
                 if not self.infeasible(x):
                     outs.append((x, val))
@@ -559,6 +573,7 @@ class Engine:
             self.assign(s.target, v, st)
             return [(st, "fall")]
         if isinstance(s, ast.Return):
+            st.env["$ret"] = self.return_ord.get(id(s), -1)
             return [(st, ("return", self.ev(s.value, st) if s.value is not None else None))]
         if isinstance(s, ast.Raise):
             if s.exc is None:
@@ -943,7 +958,10 @@ class Engine:
         if r is not None:
             return self.module_name(r[1], r[0], st)
         if name in src.imports:
-            return Abstract("module", name=src.imports[name][1] or name, alias=name)
+            level, module, orig = src.imports[name]
+            if orig is None:
+                return Abstract("module", name=module or name, alias=name)
+            return Abstract("libfunc", name=f"{module}.{orig}" if level == 0 else f"<repo>.{module}.{orig}", alias=name)
         if name in _EXC_NAMES:
             return Abstract("exc_class", name=name)
         import builtins
@@ -956,6 +974,9 @@ class Engine:
 
     def ev_List(self, e, st):
         return PyList([self.ev(x, st) for x in e.elts])
+
+    def ev_Set(self, e, st):
+        return Abstract("concrete_iter", items=[self.ev(x, st) for x in e.elts], kind="set")
 
     def ev_Dict(self, e, st):
         d = {}
@@ -1256,6 +1277,12 @@ class Engine:
             b = b if isinstance(b, Ext) else Ext.fin(b)
             return {ast.Eq: lambda: a.eq(b), ast.NotEq: lambda: Not(a.eq(b)), ast.Lt: lambda: a.lt(b), ast.LtE: lambda: a.le(b),
                     ast.Gt: lambda: b.lt(a), ast.GtE: lambda: b.le(a)}[type(op)]()
+        if isinstance(op, (ast.Eq, ast.NotEq)) and any(isinstance(x, Abstract) and x.tag == "concrete_iter" and getattr(x, "kind", "") in ("set", "frozenset", "keys") for x in (a, b)):
+            ia, ib = self._concrete_items(a), self._concrete_items(b)
+            if ia is not None and ib is not None and not any(is_z3(x) for x in ia + ib):
+                res = set(ia) == set(ib)
+                return res if isinstance(op, ast.Eq) else (not res)
+            raise Unsupported("set comparison with symbolic members")
         if isinstance(a, PyList) and isinstance(b, PyList) and isinstance(op, (ast.Eq, ast.NotEq)):
             if len(a.items) != len(b.items):
                 return isinstance(op, ast.NotEq)
@@ -1372,6 +1399,10 @@ class Engine:
                 return Exc(fv.name, args)
             if fv.tag == "libfunc":
                 return self.libcall(fv.name, args, kwargs, st, node)
+        if isinstance(fv, Abstract):
+            r = self.c.on_call(self, st, node, "$call", fv, args, kwargs)
+            if r is not NotImplemented:
+                return r
         raise Unsupported(f"call of {fv!r} at line {getattr(node, 'lineno', '?')}")
 
     def libcall(self, name, args, kwargs, st, node):
@@ -1529,6 +1560,11 @@ class Engine:
             cols = [self._concrete_items(a) for a in args]
             if all(c is not None for c in cols):
                 return PyList([tuple(r) for r in zip(*cols)])
+        if name == "slice":
+            a3 = list(args) + [None] * (3 - len(args))
+            if len(args) == 1:
+                a3 = [None, args[0], None]
+            return Abstract("slice", lo=a3[0], hi=a3[1], step=a3[2])
         if name == "dict" and not args:
             return PyDict(kwargs)
         if name == "callable":
@@ -1611,7 +1647,7 @@ class Engine:
             if name == "items":
                 return PyList([(k, v) for k, v in recv.d.items()])
             if name == "keys":
-                return PyList(list(recv.d.keys()))
+                return Abstract("concrete_iter", items=list(recv.d.keys()), kind="keys")
             if name == "values":
                 return PyList(list(recv.d.values()))
             if name == "copy":
